@@ -94,6 +94,7 @@ pub fn eval(t: &[&str]) -> Option<String> {
             |p| fmt_ym(&p),
         ),
         "ym_fromp" => render(partial_date(&t[1..7]).and_then(|p| PlainYearMonth::from_partial(p, overflow(t[7]))), |p| fmt_ym(&p)),
+        "md_fromp" => render(partial_date(&t[1..7]).and_then(|p| Calendar::default().month_day_from_partial(&p, overflow(t[7]))), |p| fmt_md(&p)),
         "ym_with" => render(ym3(&t[1..4]).and_then(|r| r.with(partial_date(&t[4..10])?, opt_ov(t[10]))), |p| fmt_ym(&p)),
         "ym_parse" => render(PlainYearMonth::from_str(t[1]), |p| fmt_ym(&p)),
         "md_parse" => render(PlainMonthDay::from_str(t[1]), |p| fmt_md(&p)),
@@ -204,6 +205,21 @@ pub fn generate_c17(rng: &mut Rng, thorough: bool) -> Vec<String> {
 
 pub fn generate_c18(rng: &mut Rng, thorough: bool) -> Vec<String> {
     let mut v = Vec::new();
+    // month-days from a field record: the day is regulated in the year the record gives (29 February of common and
+    // leap years, day 30 / 31 of every month, missing fields, month / month code conflicts), both overflow modes
+    for y in [2019i128, 2020, 2021, 2024, 1900, 2000, 1972, 0, -1, -271821, 275760] {
+        for m in 0..=13i128 {
+            for d in ["28", "29", "30", "31", "32", "0", "1", "-"] {
+                for ov in ["constrain", "reject"] {
+                    v.push(format!("md_fromp {y} {m} - {d} - - {ov}"));
+                    if m == 2 || rng.chance(1, 4) {
+                        v.push(format!("md_fromp {y} - M{:02} {d} - - {ov}", m.clamp(0, 99)));
+                        v.push(format!("md_fromp - {m} - {d} - - {ov}"));
+                    }
+                }
+            }
+        }
+    }
     let ym_years: [i128; 14] = [-271822, -271821, -271820, -1, 0, 1, 1972, 2020, 2024, 9999, 10000, 275759, 275760, 275761];
     // every month of boundary years through every route
     for y in ym_years {
